@@ -34,7 +34,11 @@ LOOPS = [
 
 
 # every way an instruction can fail (and be re-entered by the next call): the iterator is advanced after each error
-ERRS = ["path([1] | .[])", "path({a:1} | .[])", "[1] | path(.[0] | [2] | .[])", "path(1 | .a)", "path(1 | .[0])", "path([1] | .[0])", "path({a:1} | .a)", "path(1 | .[1:])", "path(getpath([\"a\"]) | 1 | getpath([\"b\"]))",
+# errors raised by natives that keep state in the compiled code (the regexp cache): the same failing call again in the same run
+REERRS = ['.[]? | test("(")', '(1, 2, 3) | tostring | test("(")', '.[]? | try test("[") catch "c"', '.[]? | (test("("))?', '(1, 2) | "a" | sub("(?<x"; "")', '("a", "b") | [match("a{2,1}")]', '("a", "b") | test("("; "g"), test("a")',
+          '("a", "b", "c") | test("("; "x")', 'range(3) | tostring | test("\\\\p{Foo}")', '("a", "b") | (test("(") // 1)', '("a", "b") | splits("(")', '("a", "b") | test("a"; "q")', '[.[]? | strings | try test("(") catch "bad"]',
+          '("a", "b") | capture("(?<n")', '("a", "b") | gsub("("; "x")', '("a", "b") | [scan("[")]', '("a", "b") | ascii_downcase | test("*")']
+ERRS = REERRS[:6] + ["path([1] | .[])", "path({a:1} | .[])", "[1] | path(.[0] | [2] | .[])", "path(1 | .a)", "path(1 | .[0])", "path([1] | .[0])", "path({a:1} | .a)", "path(1 | .[1:])", "path(getpath([\"a\"]) | 1 | getpath([\"b\"]))",
         "(1 | .[]) = 2", "del([1] | .[])", "([1] | .[0]) |= 3", ".[]", ".a", ".[0]", ".[1:]", "{(1): 2}", "{(null, \"a\", 1): 2}", "{a: 1} | .[0]", "[1] | .a", "1 | .[]?, .[]", "to_entries", "keys", "error", "error(null)", "error(\"x\")",
         "[.[]? | error]", "(1, error, 2, error, 3)", "(error, 1)", "error | 1", "try error(\"x\") catch error(\"y\")", "(try error catch .) | error", ".[] |= error", "reduce error as $x (0; .)", "reduce (1, 2) as $x (0; error)",
         "foreach (1, error) as $x (0; .)", "foreach (1, 2) as $x (0; error; .)", "foreach (1, 2) as $x (0; .; error)", "if error then 1 else 2 end", "if . then error else error end", "error as $x | 1", "1 as $x | error",
@@ -62,13 +66,15 @@ def run(tier, seed, replay):
         if replay:
             c = json.load(open(replay))["case"]
             progs = [(c["src"], c["input"])]
-            ks_override = [c.get("cancel", 0)]
+            ks_override = [c.get("cancel", 0)] if c.get("cancel_after") is None else [-1]
+            after_override = c.get("cancel_after")
         else:
-            ks_override = None
+            ks_override, after_override = None, None
             progs = [(s, r.choice(inputs)) for s in LOOPS]
             errs = ERRS if not quick else r.sample(ERRS, 70) + ERRS[:12]
             progs += [(s, r.choice(inputs)) for s in errs] + [(s, jqgen.V(x)) for s in (ERRS[:40] if not quick else ERRS[:12]) for x in ([7, 8], {"b": 2})]
             progs += [(c["src"], c["inputs"][0]) for c in evalfam.regression_cases()]
+            progs += [(s, jqgen.V(x)) for s in REERRS for x in (["a", "b", "c"],)]
             for _ in range(40 if quick else 400):
                 progs.append((jqgen.program(r, 3), r.choice(uni)))
             if not quick:
@@ -104,6 +110,16 @@ def run(tier, seed, replay):
                 cid = len(cases)
                 cases.append({"id": cid, "src": b["src"], "input": b["input"], "cancel": k, "noast": True})
                 ref[cid] = b
+            # the caller cancels BETWEEN two Next calls (after m results; m = 0: a context that is done before the first call): for the interpreter
+            # this is a cancellation at the first poll of the following call - the harness records that poll as the record's `cancel`
+            nres = len(b["next"])
+            ms = {after_override} if ks_override else ({0, 1, 2, nres - 1, nres} if quick else set(range(0, min(nres, 12) + 1)) | {nres - 1, nres})
+            for m in sorted(ms):
+                if m is None or m < 0 or m > nres or (ks_override and after_override is None):
+                    continue
+                cid = len(cases)
+                cases.append({"id": cid, "src": b["src"], "input": b["input"], "cancel_after": m, "noast": True})
+                ref[cid] = b
         cases.append({"id": len(cases), "src": ".", "input": jqgen.V(1), "cancel": 1, "noast": True})
         ref[len(cases) - 1] = None
         rep.cov["programs"] = len(progs)
@@ -112,9 +128,9 @@ def run(tier, seed, replay):
         def on_verdict(rec, v):
             b = ref.get(rec["id"])
             if v["v"] == "out-mismatch":
-                what = "cancelled at poll %d, %r on %s returned %s but the interpreter model returns %s" % (
-                    rec["cancel"], rec["src"], jqgen.unV(rec["input"]), rec["next"][-3:], v.get("out", [])[-3:])
-                rep.violation(what, {"family": "vm", "case": {"src": rec["src"], "input": rec["input"], "cancel": rec["cancel"]},
+                what = "cancelled at poll %s%s, %r on %s returned %s but the interpreter model returns %s" % (
+                    rec.get("cancel"), " (by the caller, after %d results)" % rec["cancel_after"] if "cancel_after" in rec else "", rec["src"], jqgen.unV(rec["input"]), rec["next"][-3:], v.get("out", [])[-3:])
+                rep.violation(what, {"family": "vm", "case": {"src": rec["src"], "input": rec["input"], "cancel": rec.get("cancel"), "cancel_after": rec.get("cancel_after")},
                                      "actual": rec["next"], "expected": v.get("out")})
 
         recs, vs, counters = vmfam.check(rep, work, vh, prelude, cases, family="vm", tag="c07", on_verdict=on_verdict)
@@ -127,9 +143,11 @@ def run(tier, seed, replay):
             if "next" not in rec:
                 continue
             b = ref.get(rec["id"])
-            k = rec["cancel"]
+            k = rec.get("cancel")
+            if not k:
+                continue          # cancel_after beyond the end of the run: nothing was cancelled
             nxt = rec["next"]
-            case = {"family": "vm", "case": {"src": rec["src"], "input": rec["input"], "cancel": k}, "actual": nxt}
+            case = {"family": "vm", "case": {"src": rec["src"], "input": rec["input"], "cancel": k, "cancel_after": rec.get("cancel_after")}, "actual": nxt}
             ctxpos = [i for i, x in enumerate(nxt) if "ctx" in x]
             if b is not None:
                 total = len(b["steps"])
